@@ -492,7 +492,12 @@ def near_knot_insertions(prop, ev, rep, records, limit=150):
     val = Validator()
     seen, n = set(), 0
     eps = Fraction(1, 10 ** 10)
-    for t in records:
+
+    def repeated_first(t):      # curves with a repeated interior knot first: the quick tier's budget must reach them
+        U = t["pre"].get(t["act"].get("obj"), {}).get("U") or []
+        inner = [json.dumps(x) for x in U if x != U[0] and x != U[-1]]
+        return 0 if len(inner) != len(set(inner)) else 1
+    for t in sorted(records, key=repeated_first):
         a = t["act"]
         if a["name"] not in ("CvKnotInsert", "CvSplit") or t["d"] != 1 or t.get("ovf"):
             continue
